@@ -178,6 +178,62 @@ m("C04", "gs-validates-rejected", GS,
   "	if err != nil && err != datatransfer.ErrPause {\n		log.Infof(\"%s: terminating req_id=%d with error: %s\", chid, request.ID(), err.Error())\n		hookActions.TerminateWithError(err)\n	}",
   "C04.9", "graphsync request validated although the manager rejected it")
 
+# ---------------- C05
+RS = "impl/restart.go"
+RC = "impl/receiver.go"
+m("C05", "responder-check-dropped", IMPL,
+  "	if channelID.Initiator == m.peerID {\n		err := errors.New(\"cannot send voucher result for request we initiated\")\n		span.RecordError(err)\n		span.SetStatus(codes.Error, err.Error())\n		return err\n	}\n",
+  "",
+  "C05.5", "initiator may send voucher results", "calibration")
+m("C05", "restart-no-initiator-check", RS,
+  "	if channel.ChannelID().Initiator != otherPeer {\n		return errors.New(\"other peer is not the initiator of the channel\")\n	}\n",
+  "",
+  "C05.3", "restart request honoured from a peer that did not initiate the channel")
+m("C05", "restart-no-basecid-check", RS,
+  "	if req.BaseCid() != channel.BaseCID() {\n		return errors.New(\"base cid does not match\")\n	}\n",
+  "",
+  "C05.3", "restart request with a different base CID honoured")
+m("C05", "restart-no-vouchertype-check", RS,
+  "	if req.VoucherType() != channelVoucher.Type {\n		return errors.New(\"channel and request voucher types do not match\")\n	}\n",
+  "",
+  "C05.3", "restart request with a different voucher type honoured")
+m("C05", "restart-no-voucher-check", RS,
+  "	if !ipld.DeepEqual(reqVoucher, channelVoucher.Voucher) {\n		return errors.New(\"channel and request vouchers do not match\")\n	}\n",
+  "	_ = ipld.DeepEqual(reqVoucher, channelVoucher.Voucher)\n",
+  "C05.3", "restart request with a different voucher honoured")
+m("C05", "restart-compares-last-voucher", RS,
+  "	channelVoucher := channel.Voucher()\n	if req.VoucherType()",
+  "	channelVoucher := channel.LastVoucher()\n	if req.VoucherType()",
+  "C05.3", "restart request compared with the latest voucher instead of the original", "seeded/C05a")
+m("C05", "restart-existing-wrong-helper", RC,
+  "	if channels.IsChannelTerminated(channel.Status()) {\n		log.Errorf(\"cannot restart channel %s: channel already terminated\", ch)",
+  "	if channels.IsChannelCleaningUp(channel.Status()) {\n		log.Errorf(\"cannot restart channel %s: channel already terminated\", ch)",
+  "C05.4", "restart-existing request honoured for a terminated channel", "seeded/C05b")
+m("C05", "restart-existing-no-sender-check", RC,
+  "	if channel.OtherPeer() != sender {\n		log.Errorf(\"cannot restart channel %s: channel counterparty is not the sender peer\", ch)\n		return\n	}\n",
+  "",
+  "C05.4", "restart-existing request honoured from a stranger")
+m("C05", "chid-from-message-content", RC,
+  "	chid := datatransfer.ChannelID{Initiator: initiator, Responder: r.manager.peerID, ID: incoming.TransferID()}\n	ctx, _ = r.manager.spansIndex.SpanForChannel(ctx, chid)\n	ctx, span := otel.Tracer(\"data-transfer\").Start(ctx, \"receiveRequest\"",
+  "	chid := datatransfer.ChannelID{Initiator: initiator, Responder: r.manager.peerID, ID: incoming.TransferID()}\n	if rc, err := incoming.RestartChannelId(); err == nil && rc.ID != 0 {\n		chid = rc\n	}\n	ctx, _ = r.manager.spansIndex.SpanForChannel(ctx, chid)\n	ctx, span := otel.Tracer(\"data-transfer\").Start(ctx, \"receiveRequest\"",
+  "C05.1", "channel id taken from message content")
+m("C05", "extension-no-crosscheck", GS,
+  "		if (chid != datatransfer.ChannelID{ID: msg.TransferID(), Initiator: p, Responder: t.peerID}) {\n			return nil, errors.New(\"received request on response channel\")\n		}\n",
+  "",
+  "C05.2", "request accepted on a channel the sender did not initiate")
+m("C05", "restart-by-initiator-allowed", RR,
+  "	if m.peerID == initiator {\n		return false, datatransfer.ValidationResult{}, errors.New(\"initiator cannot be manager peer for a restart request\")\n	}\n",
+  "	if m.peerID == initiator {\n		_ = errors.New(\"initiator cannot be manager peer for a restart request\")\n	}\n",
+  "C05.3", "restart request processed on a channel we initiated")
+m("C05", "update-status-by-initiator", IMPL,
+  "	if chid.Initiator == m.peerID {\n		err := errors.New(\"cannot send voucher result for request we initiated\")\n		return err\n	}\n",
+  "",
+  "C05.5", "initiator may send validation updates")
+m("C05", "wrong-remote-peer", "network/libp2p_impl.go",
+  "					dtnet.receiver.ReceiveRequest(ctx, p, receivedRequest)",
+  "					dtnet.receiver.ReceiveRequest(ctx, s.Conn().LocalPeer(), receivedRequest)",
+  "C05.1", "request attributed to the wrong peer")
+
 by = collections.defaultdict(list)
 for x in M:
     p = x.pop("prop")
